@@ -15,6 +15,9 @@ use starlark::environment::Module;
 use starlark::eval::Evaluator;
 use starlark::syntax::AstModule;
 use starlark::syntax::Dialect;
+use starlark::values::FrozenHeap;
+use starlark::values::FrozenHeapName;
+use starlark::values::FrozenValue;
 use starlark::values::OwnedFrozen;
 use starlark::values::Value;
 use starlark::values::dict::DictRef;
@@ -195,6 +198,20 @@ fn build(objs: &mut HashMap<String, Obj>, op: &J) -> Result<(), String> {
                 }
                 Ok(v)
             })?;
+            Obj::Handle(r)
+        }
+        // a "forwarding" frozen heap: allocates nothing itself (or one wrapper list), only references the handle's heap
+        "forward" | "forward_wrap" => {
+            let h = handle_of(objs, op["from"].as_str().unwrap())?.clone();
+            let wrap = kind == "forward_wrap";
+            let r: OwnedFrozen<Value<'static>> = OwnedFrozen::build(FrozenHeapName::user("fwd".to_owned()), |heap: &FrozenHeap| {
+                let v: FrozenValue = h.as_ref().add_to_frozen_heap(heap).unpack_frozen().expect("frozen");
+                if wrap {
+                    heap.alloc(starlark::values::list::AllocList([v, v])).to_value()
+                } else {
+                    v.to_value()
+                }
+            });
             Obj::Handle(r)
         }
         "globals" => {
